@@ -507,7 +507,6 @@ Definition simple_cond (t ct : str) : Prop := unsafe_ok t = true /\ t <> colon_s
 Definition aleaf (k : leafk) : Prop :=
   match k with
   | LLeafError rm => rawmsg rm
-  | LOpaqueErrno _ _ => False
   | _ => unsafe_ok (leaf_text k) = true
   end.
 
@@ -522,6 +521,7 @@ Definition awrap (w : wlayer) (c : err) : Prop :=
   | WSyscallError sc => unsafe_ok sc = true
   | WPathError op path => ascii op = true /\ no_nl op = true /\ unsafe_ok path = true
   | WLinkError op old new => ascii op = true /\ no_nl op = true /\ unsafe_ok old = true /\ unsafe_ok new = true
+  | WOpError op net src addr => operror_ok op net src addr = true     (* plain strings, not both src and addr *)
   end.
 
 Fixpoint aplain (e : err) : Prop :=
@@ -631,7 +631,7 @@ Proof.
       destruct C as (_ & _ & -> & _). exact W.
     + unfold format_simple. now apply rbh_direct.
   - ldef i (LErrno n) H.
-  - contradiction.
+  - ldef i (LOpaqueErrno m p) H.
   - (* LLeafError *)
     destruct H as (Hm & Hn & Hs). exists rm. split; [|split; [exact Hm|reflexivity]].
     intros o wd kk st acc Hpre. cbn [sem ns_fmt].
@@ -917,6 +917,33 @@ Proof.
       * now rewrite (strip_ascii sc).
       * intros o st3 C. split; [|reflexivity]. unfold wrap_fbody. cbn [wrap_body]. unfold default_body. cbn [andb].
         now apply rbh_safe.
+  - (* WOpError *)
+    destruct (operror_ok_parts _ _ _ _ Hw) as (Hopa & Hopn & Hna & Hnn & Hsrc & Haddr & Hone & Hhne).
+    pose proof (operror_red_strip _ _ _ _ Hw) as Hs.
+    assert (Hh : mstr (operror_red op net src addr)).
+    { destruct (operror_np_ok op net Hopa Hopn Hna Hnn) as [A2 _]. unfold operror_red.
+      apply mstr_app; [now apply mstr_ascii|]. apply mstr_app.
+      - destruct src as [|x sr]; [constructor|]. change (unsafe_ok (x :: sr) = true) in Hsrc.
+        apply mstr_app; [now apply mstr_ascii|]. apply (mstr_tagged (x :: sr)).
+        now apply unsafe_ok_parts in Hsrc.
+      - destruct addr as [|y ar]; [constructor|]. change (unsafe_ok (y :: ar) = true) in Haddr.
+        apply mstr_app; [now apply mstr_ascii|]. apply (mstr_tagged (y :: ar)).
+        now apply unsafe_ok_parts in Haddr. }
+    assert (Hha : ascii (operror_head op net src addr) = true).
+    { rewrite <- Hs. now apply mstr_strip_ascii. }
+    split; [|split].
+    + cbn [plain_tree]. now rewrite Hw, Pc.
+    + change (ascii (operror_head op net src addr ++ colon_sp ++ ns_text (sem c)) = true).
+      now rewrite !ascii_app, Hha, Ac.
+    + change (no_nl (operror_head op net src addr ++ colon_sp ++ ns_text (sem c)) = true ->
+              exists R, rgood (Wrap i (WOpError op net src addr) c) R).
+      rewrite !no_nl_app. intro Hn'. repeat (apply andb_true_iff in Hn' as [_ Hn']).
+      destruct (Rc Hn') as [R HR]. exists (operror_red op net src addr ++ colon_sp ++ R).
+      apply rgood_wrap_keep1; try assumption.
+      * intro E. apply Hhne. rewrite <- Hs, E. reflexivity.
+      * rewrite Hs. reflexivity.
+      * intros o st3 C. split; [|reflexivity]. unfold wrap_fbody. cbn [wrap_body].
+        exists (operror_red op net src addr). split; [now apply operror_wrote|exact (rout_true _)].
 Qed.
 
 (* ---- secondary, barrier ---- *)
@@ -1305,6 +1332,9 @@ Fixpoint spec_text (r : recipe) : option str :=
   | RLinkError r op old new =>
     option_map (fun c => op ++ lit " " ++ old ++ lit " " ++ new ++ lit ": " ++ c) (spec_text r)
   | RSyscallError r sc => option_map (fun c => sc ++ lit ": " ++ c) (spec_text r)
+  | ROpError r op net src addr =>
+    option_map (fun c => operror_head op net src addr ++ lit ": " ++ c) (spec_text r)
+  | RForeignErrno n => Some (errno_text n)
   | RUWrap u r msg _ =>
     option_map (fun c => match u with UWFull => msg | UWEmpty => c | _ => msg ++ lit ": " ++ c end)
                (spec_text r)
@@ -1355,7 +1385,7 @@ Definition ok_fmt_with (ok : recipe -> bool) (st : recipe -> option str) : list 
 
 Fixpoint ok_recipe (r : recipe) : bool :=
   match r with
-  | RNil | RSentinel _ | RErrno _ | RTestError => true
+  | RNil | RSentinel _ | RErrno _ | RForeignErrno _ | RTestError => true
   | RStdNew m | RNew m | RPkgNew m | RUnimpl _ _ m | RULeaf _ m _ _ => unsafe_ok m
   | RNewf f | RAssertf f =>
     ok_fmt_with ok_recipe spec_text f && nonempty (spec_fmt_with spec_text f)
@@ -1381,6 +1411,7 @@ Fixpoint ok_recipe (r : recipe) : bool :=
   | RPathError r op path => ok_recipe r && lit_ok op && unsafe_ok path
   | RLinkError r op old new => ok_recipe r && lit_ok op && unsafe_ok old && unsafe_ok new
   | RSyscallError r sc => ok_recipe r && unsafe_ok sc
+  | ROpError r op net src addr => ok_recipe r && operror_ok op net src addr
   | RUWrap u r msg _ =>
     ok_recipe r &&
     match u with
@@ -1611,13 +1642,13 @@ Fixpoint fkids (f : list fpiece) : list recipe :=
 Definition kids (r : recipe) : list recipe :=
   match r with
   | RNil | RSentinel _ | RStdNew _ | RNew _ | RPkgNew _ | RErrno _ | RUnimpl _ _ _
-  | RGrpcStatus _ _ | RGogoStatus _ _ | RTestError | RULeaf _ _ _ _ => []
+  | RGrpcStatus _ _ | RGogoStatus _ _ | RTestError | RULeaf _ _ _ _ | RForeignErrno _ => []
   | RNewf f | RAssertf f | RFmtErrorf f => fkids f
   | RWrap r _ | RWithMessage r _ | RWithStack r | RHint r _ | RDetail r _ | RIssueLink r _ _
   | RTelemetry r _ | RDomain r _ | RTags r _ | RAssert r | RHTTP r _ | RGrpc r _
   | RHandled r | RHandledMsg r _ | RHandledInDomain r _ | RHandledInDomainMsg r _ _ | RHandleAssert r
   | RPkgMsg r _ | RPkgStack r | RPathError r _ _ | RLinkError r _ _ _ | RSyscallError r _
-  | RUWrap _ r _ _ | RTransfer r _ => [r]
+  | ROpError r _ _ _ _ | RUWrap _ r _ _ | RTransfer r _ => [r]
   | RWrapf r f | RWithMessagef r f | RSafeDetails r f | RHandledMsgf r f | RNewAssertWrapped r f =>
     r :: fkids f
   | RMark r x | RSecondary r x | RCombine r x => [r; x]
@@ -2393,6 +2424,13 @@ Proof.
     intros e s1 Te Ae. cbn [spec_text]. rewrite Te. cbn [option_map].
     unfold mk_wrap, fresh_oid. cbn [fst]. split; [reflexivity|].
     cbn [aplain awrap]. split; assumption.
+  - (* ROpError *)
+    apply andb_true_iff in Hok as [H1 H2].
+    on_case Pr H1 r s (mk_wrap (WOpError op net src addr)).
+    intros e s1 Te Ae. cbn [spec_text]. rewrite Te. cbn [option_map].
+    unfold mk_wrap, fresh_oid. cbn [fst]. split; [reflexivity|].
+    cbn [aplain awrap]. split; assumption.
+  - (* RForeignErrno *) split; [reflexivity|]. apply errno_text_unsafe.
   - (* RUWrap *)
     apply andb_true_iff in Hok as [H1 H2].
     on_case Pr H1 r s (mk_wrap (WUser u msg xs)).
@@ -2496,6 +2534,14 @@ Example ex_recipe_ok :
   text_of ex_recipe = spec_text ex_recipe.
 Proof. vm_compute. repeat split. Qed.
 
+(* net.OpError with a source only, over an errno forwarded from another platform *)
+Example ex_operror_ok :
+  let r := RWrap (ROpError (RForeignErrno 110) (lit "dial") (lit "tcp") (lit "10.0.0.1:1") []) (lit "ctx") in
+  ok_recipe r = true /\
+  spec_text r = Some (lit "ctx: dial tcp 10.0.0.1:1: connection timed out") /\
+  text_of r = spec_text r.
+Proof. vm_compute. repeat split. Qed.
+
 (* the side conditions are needed: without them the text differs from the
    specification.  In each case [ok_recipe] is false. *)
 (* 1. fmt.Errorf(": %w", x) under a library wrapper: the engine drops the
@@ -2536,3 +2582,15 @@ Example ce_two_lines :
   ok_recipe r = false /\ text_of r = spec_text r /\
   match fst (build (mkbenv []) r bs_init) with Some e => plain_tree e = false | None => False end.
 Proof. vm_compute. repeat split. Qed.
+
+(* 7. net.OpError with both Source and Addr: Error() is as specified, but %v prints
+      "src -> addr" (Proofs/ShortText.v, operror_arrow_refuted), so the tree is not
+      [plain_tree] *)
+Example ce_operror_both :
+  let r := ROpError (RStdNew (lit "x")) (lit "dial") (lit "tcp") (lit "a") (lit "b") in
+  ok_recipe r = false /\ text_of r = spec_text r /\
+  match fst (build (mkbenv []) r bs_init) with
+  | Some e => plain_tree e = false /\ fmt_plain_short e <> error_text e
+  | None => False
+  end.
+Proof. vm_compute. repeat split. discriminate. Qed.
